@@ -2,7 +2,10 @@
 //! |a - b| <= fudge on a grid around the edges; (2) Key::new accepts exactly the RFC 8945 5.2.2.1 lengths for all four
 //! algorithms and all lengths 0..=70; (3) for every accepted signing length of HMAC-SHA256 a request, its answer and a
 //! sequence of three answers signed by one side verify on the other, a flipped octet is rejected, and a run of 99
-//! unsigned answers is accepted while the 100th is not.
+//! unsigned answers is accepted while the 100th is not; (4) for all four algorithms and key names in lower, upper and
+//! mixed case the MAC of a signed request equals an independent RFC 8945 4.3.3 computation with ring (message without
+//! the TSIG record, then key name in canonical form, class ANY, TTL 0, algorithm name, time signed, fudge, error, other
+//! length), and a server whose key is named in another letter case accepts the request.
 #[path = "../th.rs"]
 mod th;
 use domain::base::name::Name;
@@ -137,5 +140,55 @@ fn main() {
             fail("the 100th unsigned answer in a row is accepted (at most 99 are allowed)".into());
         }
     }
-    println!("OK: Time48, key length bounds, sign/verify for every signing length, unsigned runs");
+    // (4) MACs against an independent computation, key names in every letter case
+    for (alg, ralg, algname) in [
+        (Algorithm::Sha1, ring::hmac::HMAC_SHA1_FOR_LEGACY_USE_ONLY, &b"\x09hmac-sha1\0"[..]),
+        (Algorithm::Sha256, ring::hmac::HMAC_SHA256, &b"\x0bhmac-sha256\0"[..]),
+        (Algorithm::Sha384, ring::hmac::HMAC_SHA384, &b"\x0bhmac-sha384\0"[..]),
+        (Algorithm::Sha512, ring::hmac::HMAC_SHA512, &b"\x0bhmac-sha512\0"[..]),
+    ] {
+        for kname in ["tsig-key.example.", "TSIG-KEY.EXAMPLE.", "Tsig-Key.exAmple."] {
+            let secret = [0x5Au8; 64];
+            let key = Arc::new(Key::new(alg, &secret, KeyName::from_str(kname).unwrap(), None, None).unwrap());
+            let mut req = th::request();
+            let _tr = ClientTransaction::request(key.clone(), &mut req, now).unwrap();
+            let bytes = req.finish();
+            let msg = Message::from_octets(bytes.clone()).unwrap();
+            let rec = msg.additional().unwrap().limit_to::<domain::rdata::tsig::Tsig<_, _>>().next().unwrap().unwrap();
+            let tsig = rec.data();
+            let mac: Vec<u8> = tsig.mac().as_ref().to_vec();
+            // the message without the TSIG record
+            let mut plain = th::request().finish();
+            plain[0..2].copy_from_slice(&tsig.original_id().to_be_bytes());
+            let rk = ring::hmac::Key::new(ralg, &secret);
+            let mut ctx = ring::hmac::Context::with_key(&rk);
+            ctx.update(&plain);
+            let mut name_wire = Vec::new();
+            for label in kname.to_ascii_lowercase().trim_end_matches('.').split('.') {
+                name_wire.push(label.len() as u8);
+                name_wire.extend_from_slice(label.as_bytes());
+            }
+            name_wire.push(0);
+            ctx.update(&name_wire);
+            ctx.update(&255u16.to_be_bytes());
+            ctx.update(&0u32.to_be_bytes());
+            ctx.update(algname);
+            ctx.update(&tsig.time_signed().into_octets());
+            ctx.update(&tsig.fudge().to_be_bytes());
+            ctx.update(&0u16.to_be_bytes());
+            ctx.update(&0u16.to_be_bytes());
+            let expect = ctx.sign();
+            if expect.as_ref() != &mac[..] {
+                fail(format!("{:?}, key name {:?}: the MAC of the signed request differs from the independent RFC 8945 4.3.3 computation", alg, kname));
+            }
+            // a server that spells the same key name in another case accepts the request
+            let skey = Key::new(alg, &secret, KeyName::from_str(&kname.to_ascii_uppercase()).unwrap(), None, None).unwrap();
+            let mut reqmsg = Message::from_octets(bytes).unwrap();
+            match ServerTransaction::request(&skey, &mut reqmsg, now) {
+                Ok(Some(_)) => {}
+                _ => fail(format!("{:?}: a request signed with key name {:?} is refused by a server that spells the name in upper case", alg, kname)),
+            }
+        }
+    }
+    println!("OK: Time48, key length bounds, sign/verify for every signing length, unsigned runs, MACs of all algorithms against an independent computation");
 }
